@@ -393,6 +393,12 @@ def run(ctx: Ctx):
                 "the reader worker is started once, stopped by close(), never joins itself, and its "
                 "blocking wait has a time-out", floor=6)
 
+    from . import c04
+    ctx.include(c04.run, {"C04-R2"}, "C05-R4c",
+                "the decoder called by the framing loop always moves forward: every AVP loop "
+                "consumes input per iteration and nothing it calls repositions the cursor (a "
+                "frame that never finishes decoding stops the reader thread for good)", floor=3)
+
     # ------------------------------------------------------------------ R5
     ctx.rule("C05-R5", "summaries: Message.from_bytes parses the header first, outside any "
                        "try; the length field is masked to 24 bits", floor=2)
